@@ -802,7 +802,8 @@ fn generic_reduce_table(
     ys: Value,
     env: &mut Uiua,
 ) -> UiuaResult {
-    if xs.rank() == 0 || ys.rank() == 0 || env.value_fill().is_some() {
+    // Reducing a table without rows gives the identity of the function, if it has one
+    if xs.rank() == 0 || ys.rank() == 0 || xs.row_count() == 0 || env.value_fill().is_some() {
         env.push(ys);
         env.push(xs);
         table_impl(g, env)?;
